@@ -27,23 +27,98 @@ TECHNIQUE = "path-sensitive abstract interpretation of task_unique (guard atoms 
 TU = "function.py::Function.task_unique_factory.task_unique"
 
 
-def _key_forms(program):
-    forms = {}
-    for uid in (TU, "function.py::Function.task_name2id_factory.user_task_name2id", "function.py::Function.unique_name_used"):
-        fn = program.func(uid)
-        f = None
-        for n in body_walk(fn):
-            if isinstance(n, ast.JoinedStr) and "get_global_ctx_name" in norm(n):
-                parts = []
-                for v in n.values:
-                    if isinstance(v, ast.Constant):
-                        parts.append(v.value)
-                    else:
-                        parts.append("{ctx}" if "get_global_ctx_name" in norm(v.value) else "{name}")
-                f = "".join(parts)
-                break
-        forms[uid] = f
-    return forms
+
+
+KEY_HELPERS = {"cls.unique_name_key", "Function.unique_name_key"}  # helper(s) that qualify a name with its context: followed, not assumed
+
+
+def key_agreement_rule(ctx, program, rid):
+    """After task.unique('n') in a context: unique_name_used(ctx, 'n') is True, name2id('n') is the task, name2id() is {'n': task} (and 'other' is unknown)."""
+    gctx = ObjV("gctx", "AstEval")
+    summ = {"ctx.get_global_ctx_name": lambda i, n, a, k, c, o: [(c, Const("file.x"))], "asyncio.current_task": lambda i, n, a, k, c, o: [(c, Const("T1"))]}
+
+    def run(uid, args, heap):
+        pol = FlowPolicy(program, may_raise_all=False, cancel=False, inline=KEY_HELPERS, summaries=summ, globals_={"cls": ClassV("Function"), "ctx": gctx})
+        pol.loop_unroll = 4
+        return exits(run_flow(program, uid, pol, args=args, heap=dict(heap)))
+
+    base = {"Function.unique_name2task": DictV([]), "Function.unique_task2name": DictV([]), "Function.our_tasks": ListV((Const("T1"),), "set")}
+    rets = [c for k, c, d in run(TU, {"name": Const("n"), "kill_me": Const(False)}, base) if k == "return"]
+    if len(rets) != 1:
+        raise AnalysisError(f"task.unique('n') on empty registries: {len(rets)} normal exits")
+    heap1 = {k: v for k, v in rets[0].heap.items() if k.startswith("Function.")}
+    used = "function.py::Function.unique_name_used"
+    n2i = "function.py::Function.task_name2id_factory.user_task_name2id"
+    for name, want in (("n", True), ("other", False)):
+        got = [(k, c.env.get("$ret")) for k, c, d in run(used, {"cls": ClassV("Function"), "ctx": gctx, "name": Const(name)}, heap1)]
+        ctx.check(got == [("return", Const(want))], rid, used, f"in-use test of {name!r} after task.unique('n')",
+                  msg=f"unique_name_used(ctx, {name!r}) after task.unique('n') in the same context gives {got}, specified {want}: @task_unique(kill_me=True) and task.unique disagree about names",
+                  key=f"agreement used {name}", node=program.func(used), rel="function.py")
+    got = [(k, c.env.get("$ret")) for k, c, d in run(n2i, {"name": Const("n")}, heap1)]
+    ctx.check(got == [("return", Const("T1"))], rid, n2i, "task.name2id('n') after task.unique('n')", msg=f"task.name2id('n') gives {got}, specified the claiming task", key="agreement name2id one",
+              node=program.func(n2i), rel="function.py")
+    got = [(k, c.env.get("$ret")) for k, c, d in run(n2i, {"name": NONE}, heap1)]
+    ok = len(got) == 1 and got[0][0] == "return" and isinstance(got[0][1], DictV) and [(kk, vv) for kk, vv in got[0][1].items] == [(Const("n"), Const("T1"))]
+    ctx.check(ok, rid, n2i, "task.name2id() after task.unique('n')", msg=f"task.name2id() gives {got}, specified {{'n': <the claiming task>}}", key="agreement name2id all",
+              node=program.func(n2i), rel="function.py")
+    got = [(k, getattr(c.env.get("$exc"), "cls", None)) for k, c, d in run(n2i, {"name": Const("other")}, heap1)]
+    ctx.check(got == [("raise", "NameError")], rid, n2i, "task.name2id('other') is unknown", msg=f"task.name2id('other') gives {got}, specified NameError", key="agreement name2id unknown",
+              node=program.func(n2i), rel="function.py")
+
+
+def context_isolation_rule(ctx, program, rid):
+    """The three functions that qualify a unique name, interpreted for the outer context after the nested context claimed `lock` (and vice versa)."""
+    from ..flow import FlowPolicy, exits, run_flow
+    outer, inner = ObjV("ctx_outer", "AstEval"), ObjV("ctx_inner", "AstEval")
+    names = {"ctx_outer": "scripts.a", "ctx_inner": "scripts.a.b"}
+
+    def gname_for(ctxv):
+        return lambda i, n, a, k, c, o: [(c, Const(names[ctxv.oid]))]
+
+    T_in, T_out = Const("task-of-inner"), Const("task-of-outer")
+    key_uid = "function.py::Function.unique_name_used"
+    tu = "function.py::Function.task_unique_factory.task_unique"
+    n2i = "function.py::Function.task_name2id_factory.user_task_name2id"
+
+    def run(uid, ctxv, args, heap):
+        pol = FlowPolicy(program, may_raise_all=False, cancel=False, events=["cls.reaper_cancel"], inline=KEY_HELPERS,
+                         summaries={"ctx.get_global_ctx_name": gname_for(ctxv), "asyncio.current_task": lambda i, n, a, k, c, o: [(c, T_out)]},
+                         globals_={"cls": ClassV("Function"), "ctx": ctxv})
+        pol.loop_unroll = 6
+        a = dict(args)
+        if uid == key_uid:
+            a.update({"cls": ClassV("Function"), "ctx": ctxv})
+        return exits(run_flow(program, uid, pol, args=a, heap=dict(heap)))
+
+    # the nested context's task owns `lock`; keys are whatever the repository builds: take them from an interpreted claim
+    pol0 = FlowPolicy(program, may_raise_all=False, cancel=False, inline=KEY_HELPERS, summaries={"ctx.get_global_ctx_name": gname_for(inner), "asyncio.current_task": lambda i, n, a, k, c, o: [(c, T_in)]},
+                      globals_={"cls": ClassV("Function"), "ctx": inner})
+    base = {"Function.unique_name2task": DictV([]), "Function.unique_task2name": DictV([]), "Function.our_tasks": ListV((T_in, T_out), "set")}
+    ex0 = exits(run_flow(program, tu, pol0, args={"name": Const("lock"), "kill_me": Const(False)}, heap=dict(base)))
+    rets = [c for k, c, d in ex0 if k == "return"]
+    if len(rets) != 1:
+        raise AnalysisError(f"task.unique('lock') in the nested context: {len(rets)} normal exits")
+    heap1 = {k: v for k, v in rets[0].heap.items() if k.startswith("Function.")}
+    # (a) in-use test from the outer context
+    got = [(k, c.env.get("$ret")) for k, c, d in run(key_uid, outer, {"name": Const("b.lock")}, heap1)]
+    ctx.check(got == [("return", Const(False))], rid, key_uid, "in-use test: ('scripts.a', 'b.lock') after ('scripts.a.b', 'lock') was claimed",
+              msg=f"unique_name_used('b.lock') in context scripts.a after scripts.a.b claimed 'lock' gives {got}: @task_unique(kill_me=True) in one file kills runs because of a name used in another",
+              key="isolation in-use", node=program.func(key_uid), rel="function.py")
+    # (b) the claim from the outer context must not cancel the nested context's task
+    bad = None
+    for k, c, d in run(tu, outer, {"name": Const("b.lock"), "kill_me": Const(False)}, heap1):
+        kills = [e for e in c.trace if e[0] == "call" and e[1] == "cls.reaper_cancel"]
+        owner = c.heap.get("Function.unique_name2task")
+        if kills:
+            bad = f"task.unique('b.lock') in scripts.a cancels {kills[0][2]!r}, the owner of 'lock' in scripts.a.b"
+        elif isinstance(owner, DictV) and T_in not in [v for _, v in owner.items]:
+            bad = "the claim in scripts.a takes the name away from its owner in scripts.a.b"
+    ctx.check(bad is None, rid, tu, "claim: ('scripts.a', 'b.lock') leaves the owner of ('scripts.a.b', 'lock') alone", msg=f"task.unique: {bad}", key="isolation claim", node=program.func(tu), rel="function.py")
+    # (c) name2id() of the outer context lists none of the nested context's names
+    got = [(k, c.env.get("$ret")) for k, c, d in run(n2i, outer, {"name": NONE}, heap1)]
+    ok = len(got) == 1 and got[0][0] == "return" and isinstance(got[0][1], DictV) and not got[0][1].items
+    ctx.check(ok, rid, n2i, "task.name2id() in scripts.a lists no name of scripts.a.b", msg=f"task.name2id() in scripts.a after scripts.a.b claimed 'lock' returns {got}: names of the nested context leak",
+              key="isolation name2id", node=program.func(n2i), rel="function.py")
 
 
 def reaper_cancel_rule(ctx, program, rid):
@@ -80,13 +155,8 @@ def run(ctx):
     program = ctx.program
     fn = program.func(TU)
 
-    ctx.rule("R13.1", "task.unique, task.name2id and the kill_me pre-check qualify names with the same '<context>.' prefix", floor=3)
-    forms = _key_forms(program)
-    norm_forms = {u: (f or "").replace("{name}", "") for u, f in forms.items()}
-    for uid, f in forms.items():
-        ctx.check(f is not None and norm_forms[uid] == "{ctx}.", "R13.1", uid, "key built as '<ctx>.<name>'",
-                  msg=f"{uid} builds the unique-name key as {f!r}; the other sites use '<context>.<name>': names would not match across the API",
-                  key="unique key form", node=program.func(uid), rel="function.py", sample={"form": f})
+    ctx.rule("R13.1", "task.unique, task.name2id and the kill_me pre-check qualify names identically: what one of them records for (context, name) the others find", floor=3)
+    key_agreement_rule(ctx, program, "R13.1")
 
     # path-sensitive analysis of task_unique --------------------------------------------------------------------
     pol = FlowPolicy(program, events=["cls.reaper_cancel", "asyncio.sleep"], may_raise_all=False, cancel=False,
@@ -184,6 +254,9 @@ def run(ctx):
     ctx.check(bool(a_used) and bool(a_fact) and set(a_used) == set(a_fact) and (not a_eval or set(a_used) <= set(a_eval) | set(a_used)), "R13.8", "trigger.py::TrigInfo.call_action",
               "legacy: pre-check and claim use the same evaluator", msg=f"legacy call_action: pre-check on {a_used}, claim on {a_fact}", key="legacy unique pre-check/claim evaluator", node=ca, rel="trigger.py")
 
+    ctx.rule("R13.12", "unique names of different global contexts never meet: context names nest ('scripts.a' / 'scripts.a.b') and a name may contain dots, so the qualified key "
+             "must still tell ('scripts.a', 'b.lock') from ('scripts.a.b', 'lock') - in the in-use test, in the claim and in task.name2id()", floor=3)
+    context_isolation_rule(ctx, program, "R13.12")
     ctx.rule("R13.11", "the reaper delivers every cancel command: on each path that handles a 'cancel' command Task.cancel() is called on the named task, unconditionally, "
              "before the reaper waits for it (a task whose own timeout is just expiring still gets the request)", floor=1)
     reaper_cancel_rule(ctx, program, "R13.11")
@@ -238,10 +311,25 @@ def _sleep_forever(interp, node, args, kwargs, cfg, out):
     return []
 
 
+def _key_of(program, name, ctx_name="ctx"):
+    """The registry key the repository builds for (context, name): read from an interpreted first claim (no format is assumed here)."""
+    pol = FlowPolicy(program, may_raise_all=False, cancel=False, inline=KEY_HELPERS, globals_={"cls": ClassV("Function"), "ctx": ObjV("gctx", "AstEval")},
+                     summaries={"ctx.get_global_ctx_name": lambda i, n, a, k, c, o: [(c, Const(ctx_name))], "asyncio.current_task": lambda i, n, a, k, c, o: [(c, Const("T_key"))]})
+    heap = {"Function.unique_name2task": DictV([]), "Function.unique_task2name": DictV([]), "Function.our_tasks": ListV((Const("T_key"),), "set")}
+    keys = set()
+    for k, c, d in exits(run_flow(program, TU, pol, args={"name": Const(name), "kill_me": Const(False)}, heap=heap)):
+        tab = c.heap.get("Function.unique_name2task")
+        if k == "return" and isinstance(tab, DictV) and len(tab.items) == 1 and isinstance(tab.items[0][0], Const):
+            keys.add(tab.items[0][0].v)
+    if len(keys) != 1:
+        raise AnalysisError(f"task.unique({name!r}) on empty registries does not record exactly one constant key: {sorted(map(repr, keys))}")
+    return keys.pop()
+
+
 def unique_table(ctx, program, rid):
     """task_unique interpreted on finite registry models; checks events and the two-way consistency of the registries."""
     fn = program.func(TU)
-    N, M = "ctx.n", "ctx.m"
+    N, M = _key_of(program, "n"), _key_of(program, "m")
     n_cases = 0
     for owner in (None, "T_old", "T_cur"):          # who owns the name being claimed
         for extra in (False, True):                  # the owner also holds a second name
@@ -266,7 +354,7 @@ def unique_table(ctx, program, rid):
                         heap = {"Function.unique_name2task": DictV([(Const(k), Const(v)) for k, v in n2t.items()]),
                                 "Function.unique_task2name": DictV([(Const(k), ListV(tuple(Const(x) for x in v), "set")) for k, v in t2n.items()]),
                                 "Function.our_tasks": ListV(tuple(Const(x) for x in ours), "set")}
-                        pol = FlowPolicy(program, events=["cls.reaper_cancel"], may_raise_all=False, cancel=False,
+                        pol = FlowPolicy(program, events=["cls.reaper_cancel"], may_raise_all=False, cancel=False, inline=KEY_HELPERS,
                                          globals_={"cls": ClassV("Function"), "ctx": ObjV("gctx", "AstEval")},
                                          summaries={"ctx.get_global_ctx_name": lambda i, n, a, k, c, o: [(c, Const("ctx"))],
                                                     "asyncio.current_task": lambda i, n, a, k, c, o: [(c, Const("T_cur"))],
